@@ -36,7 +36,8 @@ def _run_one(args):
     idx, case = args
     t0 = time.time()
     try:
-        r = _MOD.run_case(case)
+        mod = importlib.import_module(case['_mod']) if isinstance(case, dict) and '_mod' in case else _MOD
+        r = mod.run_case(case)
         if not isinstance(r, CaseResult):
             r = CaseResult(False, detail='harness returned %r' % (r,), violates=None)
     except common.DriverError as e:
@@ -106,6 +107,14 @@ def main(pid, tier, seed, replay=None):
             cases = obj.get('cases') or [obj['case']]
         else:
             cases = load_corpus(pid) + list(mod.gen_cases(seed, tier))
+            # additional correspondence stages served by other harness modules (e.g. the end-to-end pipeline
+            # model under C08); their cases are tagged with the module that runs them
+            for extra in getattr(mod, 'EXTRA_HARNESS', []):
+                em = importlib.import_module(extra)
+                for c in em.gen_cases(seed, tier):
+                    c = dict(c)
+                    c['_mod'] = extra
+                    cases.append(c)
         if po['broken'] and any('lake build failed' in b for b in po['broken']):
             # no driver: the implementation side is still examined by the falsifier below
             results = []
@@ -195,7 +204,10 @@ def main(pid, tier, seed, replay=None):
             samples = [r.sample for r in results if r.sample is not None][:3]
             if not samples and cases:
                 samples = [_trim(cases[0])]
-            missing = [b for b in getattr(mod, 'REQUIRED_BRANCHES', []) if branches.get(b, 0) == 0]
+            required = list(getattr(mod, 'REQUIRED_BRANCHES', []))
+            for extra in getattr(mod, 'EXTRA_HARNESS', []):
+                required += list(getattr(importlib.import_module(extra), 'REQUIRED_BRANCHES', []))
+            missing = [b for b in required if branches.get(b, 0) == 0]
             ev = dict(
                 property_id=pid, tier=tier, seed=int(seed), level='proof',
                 coverage=dict(
